@@ -90,6 +90,8 @@ func main() {
 		os.Exit(cmdReplay(os.Args[2:]))
 	case "debug":
 		os.Exit(cmdDebug(os.Args[2:]))
+	case "concrete":
+		os.Exit(cmdConcrete(os.Args[2:]))
 	case "list":
 		reg, err := loadRegistry()
 		if err != nil {
@@ -798,4 +800,36 @@ func runNativeRace(lr *loadResult, pkgRel string, cases []nativeCase, attempts i
 		}
 	}
 	return outs, raced, nil
+}
+
+// cmdConcrete runs a harness in the engine on fixed inputs (JSON object) and prints the observations.
+func cmdConcrete(args []string) int {
+	reg, _ := loadRegistry()
+	var spec *harnessSpec
+	for i := range reg {
+		if reg[i].Func == args[0] {
+			spec = &reg[i]
+		}
+	}
+	var model map[string]any
+	if err := json.Unmarshal([]byte(args[1]), &model); err != nil {
+		fmt.Println(err)
+		return 2
+	}
+	lr, err := loadProgram(withSupportPkgs([]string{spec.Pkg}))
+	if err != nil {
+		fmt.Println(err)
+		return 2
+	}
+	defer os.RemoveAll(lr.scratch)
+	fn := lr.eng.findFunc(spec.Pkg, spec.Func)
+	sol, _ := NewSolver([]string{"z3"})
+	defer sol.Close()
+	cfg := RunConfig{MaxSteps: 50000000, MaxPaths: 1, Params: spec.Quick.Params, FixedModel: model, KnownActive: map[string]bool{}, Trace: true}
+	pr := lr.eng.runPath(fn, nil, sol, cfg)
+	fmt.Println("outcome:", pr.outcome, pr.reason, "failed:", pr.p.failed)
+	for _, o := range pr.p.observes {
+		fmt.Println("observe", o.Label, o.Val)
+	}
+	return 0
 }
